@@ -20,3 +20,24 @@ SPEC = dict(
     trusted_base=["std HashSet/BTreeSet/HashMap/BTreeMap extend/insert/get/len modelled as list operations"],
     assumptions=["set/map backings hold no duplicate keys", "element/key types are u32; Max/Min over unsigned and signed integers and bool (char, () and 128-bit instantiations of the same macro are not instantiated)"],
 )
+
+
+# The tombstone lattices (set_union_with_tombstones / map_union_with_tombstones) are lattices of the same
+# crate: their merge flags and comparisons are modelled in HvLatSpec (C05's model), so this property also
+# runs that part (same theorems module, same harness mode, same oracle signatures as ./check C05).
+def _with_c05_part(spec):
+    import importlib.util, os
+    here = os.path.dirname(os.path.abspath(__file__))
+    sp = importlib.util.spec_from_file_location("check_C05_for_" + spec["id"], os.path.join(here, "C05.py"))
+    mod = importlib.util.module_from_spec(sp)
+    sp.loader.exec_module(mod)
+    c5 = mod.SPEC
+    keys = ("lean_project", "props_module", "driver", "harness", "bin", "mode", "cases", "extra_args",
+            "translate", "extra", "theorems", "harness_timeout", "driver_timeout")
+    own = {k: spec[k] for k in keys if k in spec}
+    other = {k: c5[k] for k in keys if k in c5}
+    spec["parts"] = [own, other]
+    return spec
+
+
+SPEC = _with_c05_part(SPEC)
